@@ -334,7 +334,7 @@ pub fn run(ctx: &Ctx) {
 	// --- 3. random multi-character strings mixing in- and out-of-alphabet characters
 	let do_random = ctx.replay.as_ref().map_or(true, |r| r.workload == "random");
 	if do_random {
-		let n = if miri { 20 } else { ctx.scale(50_000, 3_000_000) };
+		let n = if miri { 20 } else { ctx.scale(300_000, 5_000_000) };
 		par_for(n, if miri { 1 } else { ctx.threads }, |i| {
 			if let Some(r) = &ctx.replay {
 				if r.index != i {
